@@ -40,17 +40,26 @@ def sniff(head, fmt):
         return "lzma" if is_lzma() else "none"
     raise ValueError(fmt)
 
-def lib_verdict(data, decoder, flags, out_cap=1 << 24):
-    """Drive a liblzma decoder the way the tools do (whole input, LZMA_FINISH at the end, continue after
-    LZMA_UNSUPPORTED_CHECK).  -> dict(final=END|ERR, ret=name, unsup=n, out=bytes, trailing=bool)"""
+def _raw_filters():
+    m = U.lz()
+    opts = m.lzma_opts(preset=0)
+    return m.make_filters([(m.FILTER_LZMA2, opts)])
+
+def lib_verdict(data, decoder, flags, out_cap=1 << 22):
+    """Drive a liblzma decoder the way the tools do (whole input, LZMA_FINISH, continue after
+    LZMA_UNSUPPORTED_CHECK).  -> dict(final, ret, unsupFirst, unsupLater, out, trailing, consumed)"""
     m = U.lz()
     c = m.Coder()
+    keep = None
     if decoder == "stream":
         r = c.init("lzma_stream_decoder", m.UINT64_MAX, flags)
     elif decoder == "alone":
         r = c.init("lzma_alone_decoder", m.UINT64_MAX)
     elif decoder == "lzip":
         r = c.init("lzma_lzip_decoder", m.UINT64_MAX, flags)
+    elif decoder == "raw":
+        keep = _raw_filters()
+        r = c.init("lzma_raw_decoder", keep)
     else:
         raise ValueError(decoder)
     if r != m.OK:
@@ -58,61 +67,137 @@ def lib_verdict(data, decoder, flags, out_cap=1 << 24):
     ib = m.Buf(len(data), data); ob = m.Buf(out_cap)
     s = c.strm
     s.next_in = ib.addr; s.avail_in = len(data); s.next_out = ob.addr; s.avail_out = out_cap
-    unsup = 0
-    concatenated = bool(flags & m.CONCATENATED) and decoder != "alone"
+    uf = ul = 0
     ret = m.OK
     for _ in range(100000):
-        ret = c.code_raw(m.FINISH if (concatenated or True) else m.RUN)
+        ret = c.code_raw(m.FINISH)
         if ret == m.UNSUPPORTED_CHECK:
-            unsup += 1
+            if s.total_out == 0:
+                uf += 1          # before any output: what coder_init() sees while decoding the first headers
+            else:
+                ul += 1
             continue
         if ret != m.OK:
             break
         if s.avail_out == 0:
             raise MachineryError("library oracle: output larger than %d" % out_cap)
     out = ob.data(out_cap - s.avail_out)
-    trailing = s.avail_in > 0
+    consumed = len(data) - s.avail_in
     if not (ib.guards_ok() and ob.guards_ok()):
         raise MachineryError("guard bytes damaged in library decode")
     c.end()
-    return dict(final="END" if ret == m.STREAM_END else "ERR", ret=m.retname(ret), unsup=unsup, out=out, trailing=trailing)
+    return dict(final="END" if ret == m.STREAM_END else "ERR", ret=m.retname(ret), unsupFirst=min(uf, 1),
+                unsupLater=min(ul + max(0, uf - 1), 2), out=out, trailing=consumed < len(data), consumed=consumed)
 
-def oracle(tool, data, fmt, opt):
+_CACHE = {}
+
+def oracle(tool, data, fmt, opt, key=None):
     """-> (lib record for CliDecode, decoded bytes, ret name)"""
     m = U.lz()
+    ck = (key, tool if tool in ("xzdec", "lzmadec") else "xz", fmt, bool(opt.get("ignoreCheck")), opt["singleStream"])
+    if key is not None and ck in _CACHE:
+        return _CACHE[ck]
     if tool == "xzdec":
-        v = lib_verdict(data, "stream", m.CONCATENATED)
-        det = "xz"
+        v = lib_verdict(data, "stream", m.CONCATENATED); det = "xz"
     elif tool == "lzmadec":
-        v = lib_verdict(data, "alone", 0)
-        det = "lzma"
+        v = lib_verdict(data, "alone", 0); det = "lzma"
     else:
-        det = sniff(data[:8192], fmt)
+        det = "raw" if fmt == "raw" else sniff(data[:8192], fmt)
         if det == "none":
-            return dict(det="none", final="ERR", unsup=0, trailing=False), b"", "FORMAT_ERROR(cli)"
+            res = (dict(det="none", final="ERR", unsupFirst=0, unsupLater=0, trailing=False, atBoundary=False), b"", "FORMAT_ERROR(cli)")
+            if key is not None:
+                _CACHE[ck] = res
+            return res
         flags = (m.IGNORE_CHECK if opt.get("ignoreCheck") else m.TELL_UNSUPPORTED_CHECK) | (0 if opt["singleStream"] else m.CONCATENATED)
-        v = lib_verdict(data, {"xz": "stream", "lzma": "alone", "lzip": "lzip"}[det], flags)
-    return dict(det=det, final=v["final"], unsup=min(v["unsup"], 2), trailing=v["trailing"]), v["out"], v["ret"]
+        v = lib_verdict(data, {"xz": "stream", "lzma": "alone", "lzip": "lzip", "raw": "raw"}[det], flags)
+    res = (dict(det=det, final=v["final"], unsupFirst=v["unsupFirst"], unsupLater=v["unsupLater"], trailing=v["trailing"],
+                atBoundary=(v["consumed"] % 8192 == 0)), v["out"], v["ret"])
+    if key is not None:
+        _CACHE[ck] = res
+    return res
 
-def table_from_plans(plans):
-    t = {}
-    for p in plans:
-        o, l = p["opt"], p["lib"]
-        t[(p["tool"], o["singleStream"], o["force"], o["nowarn"], o["quiet"], l["det"], l["final"], l["unsup"], l["trailing"])] = p["r"]
-    return t
+# ------------------------------------------------------------------ inputs
+def _crc32(b):
+    import zlib
+    return zlib.crc32(b).to_bytes(4, "little")
 
-def predict(table, tool, opt, lib):
-    return table[(tool, opt["singleStream"], opt["force"], opt["nowarn"], opt["quiet"], lib["det"], lib["final"], lib["unsup"], lib["trailing"])]
+def patch_check_id(stream, cid):
+    """Rewrite the Check ID in Stream Header and Footer of a single .xz Stream whose check has the same size
+    (CRC32 -> reserved ID 2 or 3: four bytes)."""
+    s = bytearray(stream)
+    s[7] = cid; s[8:12] = _crc32(bytes(s[6:8]))
+    s[-3] = cid; s[-12:-8] = _crc32(bytes(s[-8:-2]))
+    return bytes(s)
+
+def tuned(xz, args, rng, target, step=1):
+    """Incompressible plaintext whose encoding with `xz args` is exactly `target` bytes."""
+    pool = bytes(rng.getrandbits(8) for _ in range(target + 64))
+    n = target - 64
+    seen = set()
+    for _ in range(400):
+        r = U.run([xz, "-c"] + args, input=pool[:n])
+        if r.returncode != 0:
+            raise MachineryError("tuned(): %r" % r.stderr)
+        d = len(r.stdout) - target
+        if d == 0:
+            return pool[:n], r.stdout
+        if n in seen:
+            n += 1 if d < 0 else -1
+            if n in seen:
+                pool = bytes(rng.getrandbits(8) for _ in range(target + 64)); seen = set(); n = target - 64
+            continue
+        seen.add(n)
+        n -= d
+        n = max(1, min(len(pool), n))
+    raise MachineryError("could not tune a payload to %d bytes for %s" % (target, args))
+
+def directed(ctx, xz, quick):
+    """Inputs constructed for the model's target classes. -> list of (name, bytes, fmt)"""
+    rng = ctx.rng
+    items = []
+    # --- .lzma and raw: stream end on / off the input-buffer boundary, with / without bytes after it
+    for fmt, args, ext in (("auto", ["-F", "lzma", "-0"], ".lzma"), ("raw", ["-F", "raw", "--lzma2=preset=0"], ".raw")):
+        for k in ([1] if quick else [1, 2, 3]):
+            _, enc = tuned(xz, args, rng, 8192 * k)
+            items.append(("aligned%d%s" % (k, ext), enc, fmt))
+            for g in ([b"GARBAGE"] if quick else [b"G", b"GARBAGE", bytes(1), bytes(8192), enc]):
+                items.append(("aligned%d_trail%d%s" % (k, len(g), ext), enc + g, fmt))
+        pl = bytes(rng.getrandbits(8) for _ in range(rng.choice([3000, 9000])))
+        enc = U.run([xz, "-c"] + args, input=pl).stdout
+        if len(enc) % 8192 == 0:
+            enc = U.run([xz, "-c"] + args, input=pl + b"x").stdout
+        items.append(("unaligned" + ext, enc, fmt))
+        items.append(("unaligned_trail" + ext, enc + b"GARBAGE", fmt))
+    # --- concatenated .xz with per-Stream check classes
+    def stream(cls, i):
+        text = (b"stream %d of class %s\n" % (i, cls.encode())) * (3 + i)
+        if cls == "none":
+            return U.run([xz, "-c", "-0", "-C", "none"], input=text).stdout
+        st = U.run([xz, "-c", "-0", "-C", "crc32"], input=text).stdout
+        return patch_check_id(st, rng.choice([2, 3])) if cls == "unsup" else st
+    import itertools
+    seqs = [q for n in (1, 2, 3) for q in itertools.product(("ok", "none", "unsup"), repeat=n)]
+    need = [("ok",), ("ok", "unsup"), ("ok", "unsup", "unsup"), ("unsup",), ("unsup", "unsup"), ("unsup", "unsup", "unsup"),
+            ("none", "ok", "unsup"), ("unsup", "ok")]
+    if quick:
+        rest = [q for q in seqs if q not in need]; rng.shuffle(rest)
+        seqs = need + rest[:4]
+    for q in seqs:
+        data = b"".join(stream(c, i) for i, c in enumerate(q))
+        items.append(("cat_" + "_".join(q) + ".xz", data, "auto"))
+        if q in need or not quick:
+            # Stream Padding up to the buffer boundary: the decoder consumes exactly 8192 bytes
+            items.append(("cat_" + "_".join(q) + "_pad8192.xz", data + bytes(8192 - len(data)), "auto"))
+    return items
 
 def corpus(ctx, xz, quick):
-    """-> list of (name, bytes)"""
+    """-> list of (name, bytes, fmt)"""
     rng = ctx.rng
     repo = os.environ.get("VERIF_REPO", "/repo")
     items = []
     for p in sorted(glob.glob(os.path.join(repo, "tests/files/*"))):
         if p.endswith((".xz", ".lzma", ".lz")) and os.path.getsize(p) < (1 << 20):
             items.append((os.path.basename(p), open(p, "rb").read()))
-    # encoder output of the current tree, with truncations / bit flips / concatenations
     plains = [b"", b"a", bytes(20000), bytes(rng.getrandbits(8) for _ in range(3000)) * 9,
               (b"The quick brown fox. " * 1500) + bytes(9000) + b"tail"]
     encs = []
@@ -144,59 +229,68 @@ def corpus(ctx, xz, quick):
         else:
             d = data + bytes(3) + data
         items.append(("mut%d_%s_%s%s" % (k, kind, name.replace(".", "_"), ext), d))
-    return items
+    return [(n, d, "auto") for n, d in items]
 
 TOOLS = ["xz_dc", "xz_d", "xz_t", "xzdec", "lzmadec"]
+SRCS = ["file", "stdin_file", "stdin_pipe"]
 
-def run_input(ctx, bins, table, wd, idx, name, data, viol, variants):
-    """All tools on one input. variants: list of (tool, opt, fmt, threads)."""
+def make_case(cid, idx, name, data, tool, src, opt, fmt, threads):
+    lib, decoded, retname = oracle(tool, data, fmt, opt, key=idx)
+    mopt = dict(singleStream=opt["singleStream"], force=opt["force"], nowarn=opt["nowarn"], quiet=opt["quiet"])
+    return dict(id=cid, idx=idx, name=name, tool=tool, src=src, opt=opt, mopt=mopt, fmt=fmt, threads=threads, lib=lib,
+                decoded=decoded, retname=retname)
+
+def input_class(idx, data, fmt):
+    """Class of the input as xz sees it (its own flags): what the Targets of GenCliDecode are stated over."""
+    lib, _, _ = oracle("xz_dc", data, fmt, dict(singleStream=False, force=False, nowarn=False, quiet=0), key=idx)
+    return lib
+
+def run_case(ctx, bins, wd, case, data, pred, viol):
     xz = bins["xz"]
-    for tool, opt, fmt, threads in variants:
-        lib, decoded, retname = oracle(tool, data, fmt, opt)
-        pred = predict(table, tool, {**opt, "force": opt["force"]}, lib)
-        d = os.path.join(wd, "i%d" % idx)
-        shutil.rmtree(d, ignore_errors=True); os.makedirs(d)
-        ext = os.path.splitext(name)[1]
-        src = os.path.join(d, "f" + ext)
-        with open(src, "wb") as f:
-            f.write(data)
-        xa = ["-T%d" % threads] + (["-F", fmt] if fmt != "auto" else []) + (["--single-stream"] if opt["singleStream"] else []) \
-            + (["--ignore-check"] if opt.get("ignoreCheck") else []) + (["-f"] if opt["force"] else []) \
-            + (["-Q"] if opt["nowarn"] else []) + ["-q"] * opt["quiet"]
-        if tool == "xz_dc":
-            argv = [xz, "-dc"] + xa + ["f" + ext]
-        elif tool == "xz_d":
-            argv = [xz, "-d"] + xa + ["f" + ext]
-        elif tool == "xz_t":
-            argv = [xz, "-t"] + xa + ["f" + ext]
-        elif tool == "xzdec":
-            argv = [bins["xzdec"], "f" + ext]
-        else:
-            argv = [bins["lzmadec"], "f" + ext]
-        r = U.run(argv, cwd=d)
-        label = "%s:%s" % (tool, "T%d" % threads if tool.startswith("xz_") else "-")
-        cls = "%s:%s%s%s" % (lib["det"], lib["final"], ":unsup" if lib["unsup"] else "", ":trailing" if lib["trailing"] else "")
-        ctx.case(key=("decode", tool, json.dumps(opt, sort_keys=True), fmt, threads, name, len(data)))
-        rep = dict(kind="decode_case", input=name, size=len(data), tool=tool, opt=opt, fmt=fmt, threads=threads, lib=lib,
-                   lib_ret=retname, predicted=pred, argv=argv[1:], hexdata=data[:4096].hex())
-        if r.returncode != pred["exit"]:
-            viol("decode:exit_status:%s:%s" % (label, cls), "%s on %s: exit %d, model %d (library: %s, %d bytes decoded); stderr=%r" %
-                 (tool, name, r.returncode, pred["exit"], retname, len(decoded), r.stderr[:200]), rep)
-        want_out = decoded if pred["stdout"] == "decoded" else data if pred["stdout"] == "input" else b""
-        if r.stdout != want_out:
-            k = next((i for i in range(min(len(r.stdout), len(want_out))) if r.stdout[i] != want_out[i]), min(len(r.stdout), len(want_out)))
-            viol("decode:stdout:%s:%s" % (label, cls), "%s on %s: stdout has %d bytes, library decoded %d before %s; first difference at %d" %
-                 (tool, name, len(r.stdout), len(want_out), retname, k), rep)
-        if tool.startswith("xz_") and bool(r.stderr.strip()) != pred["stderr"]:
-            viol("decode:stderr:%s:%s" % (label, cls), "%s on %s: stderr %r, model says used=%s" % (tool, name, r.stderr[:200], pred["stderr"]), rep)
-        left = sorted(os.listdir(d))
-        if tool == "xz_d":
-            # the target name: f (or f.tar); when the suffix is unknown nothing can be created
-            want_left = (["f"] if pred["srcRemoved"] else ["f", "f" + ext]) if pred["file"] else ["f" + ext]
-            if left != want_left:
-                viol("decode:target_file:%s:%s" % (label, cls), "xz -d on %s: directory %r, model %r (library: %s)" % (name, left, want_left, retname), rep)
-            elif pred["file"] and open(os.path.join(d, "f"), "rb").read() != decoded:
-                viol("decode:target_content:%s:%s" % (label, cls), "xz -d on %s: target differs from the library decode" % name, rep)
-        elif left != ["f" + ext]:
-            viol("decode:stray_file:%s" % label, "%s on %s left %r" % (tool, name, left), rep)
-        shutil.rmtree(d, ignore_errors=True)
+    tool, src, opt, fmt, threads, name = case["tool"], case["src"], case["opt"], case["fmt"], case["threads"], case["name"]
+    lib, decoded, retname = case["lib"], case["decoded"], case["retname"]
+    d = os.path.join(wd, "i%d" % case["id"])
+    shutil.rmtree(d, ignore_errors=True); os.makedirs(d)
+    ext = os.path.splitext(name)[1]
+    fn = "f" + ext
+    with open(os.path.join(d, fn), "wb") as f:
+        f.write(data)
+    xa = ["-T%d" % threads] + (["-F", fmt, "--lzma2=preset=0", "-S", ".raw"] if fmt == "raw" else ["-F", fmt] if fmt != "auto" else []) \
+        + (["--single-stream"] if opt["singleStream"] else []) \
+        + (["--ignore-check"] if opt.get("ignoreCheck") else []) + (["-f"] if opt["force"] else []) \
+        + (["-Q"] if opt["nowarn"] else []) + ["-q"] * opt["quiet"]
+    argv = {"xz_dc": [xz, "-dc"] + xa, "xz_d": [xz, "-d"] + xa, "xz_t": [xz, "-t"] + xa,
+            "xzdec": [bins["xzdec"]], "lzmadec": [bins["lzmadec"]]}[tool]
+    if src == "file":
+        r = U.run(argv + [fn], cwd=d, stdin=subprocess.DEVNULL)
+    elif src == "stdin_file":
+        with open(os.path.join(d, fn), "rb") as fh:
+            r = U.run(argv, cwd=d, stdin=fh)
+    else:
+        r = U.run(argv, cwd=d, input=data)
+    label = "%s:%s:%s" % (tool, "T%d" % threads if tool.startswith("xz_") else "-", src)
+    cls = "%s:%s%s%s%s%s" % (lib["det"], lib["final"], ":unsup1st" if lib["unsupFirst"] else "", ":unsupLater" if lib["unsupLater"] else "",
+                             ":trailing" if lib["trailing"] else "", ":aligned" if lib["atBoundary"] and lib["trailing"] else "")
+    ctx.case(key=("decode", tool, src, json.dumps(opt, sort_keys=True), fmt, threads, name, len(data)))
+    rep = dict(kind="decode_case", input=name, size=len(data), tool=tool, src=src, opt=opt, fmt=fmt, threads=threads, lib=lib,
+               lib_ret=retname, predicted=pred, argv=argv[1:], hexdata=data[:2048].hex())
+    if r.returncode != pred["exit"]:
+        viol("decode:exit_status:%s:%s" % (label, cls), "%s (%s) on %s: exit %d, model %d (library: %s, %d bytes decoded); stderr=%r" %
+             (tool, src, name, r.returncode, pred["exit"], retname, len(decoded), r.stderr[:200]), rep)
+    want_out = decoded if pred["stdout"] == "decoded" else data if pred["stdout"] == "input" else b""
+    if r.stdout != want_out:
+        k = next((i for i in range(min(len(r.stdout), len(want_out))) if r.stdout[i] != want_out[i]), min(len(r.stdout), len(want_out)))
+        viol("decode:stdout:%s:%s" % (label, cls), "%s (%s) on %s: stdout has %d bytes, library decoded %d before %s; first difference at %d" %
+             (tool, src, name, len(r.stdout), len(want_out), retname, k), rep)
+    if tool.startswith("xz_") and bool(r.stderr.strip()) != pred["stderr"]:
+        viol("decode:stderr:%s:%s" % (label, cls), "%s (%s) on %s: stderr %r, model says used=%s" % (tool, src, name, r.stderr[:200], pred["stderr"]), rep)
+    left = sorted(os.listdir(d))
+    if tool == "xz_d" and src == "file":
+        want_left = (["f"] if pred["srcRemoved"] else sorted(["f", fn])) if pred["file"] else [fn]
+        if left != want_left:
+            viol("decode:target_file:%s:%s" % (label, cls), "xz -d on %s: directory %r, model %r (library: %s)" % (name, left, want_left, retname), rep)
+        elif pred["file"] and open(os.path.join(d, "f"), "rb").read() != decoded:
+            viol("decode:target_content:%s:%s" % (label, cls), "xz -d on %s: target differs from the library decode" % name, rep)
+    elif left != [fn]:
+        viol("decode:stray_file:%s" % label, "%s on %s left %r" % (tool, name, left), rep)
+    shutil.rmtree(d, ignore_errors=True)
